@@ -66,6 +66,7 @@ class PitRun:
         self.coros = {}
         self.shared_param = None
         self.seen_data = []
+        self.finals = {}
 
     def close(self):
         for c in self.coros.values():
@@ -77,15 +78,37 @@ class PitRun:
     def tick(self):
         return int(round((self.loop.time() - self.t0) * 1000)) // TICK_MS
 
+    # A spec name whose last component is "P" stands for <base>/<ParametersSha256Digest>: the Interest is expressed on
+    # <base> with ApplicationParameters b'p' and a DigestSha256 signature, the library appends the digest component
+    # (the final name), and matching Data carries that final name.
+    PARAMS = b'p'
+
+    def final_name(self, base):
+        key = tuple(base)
+        if key not in self.finals:
+            from ndn.security.signer import DigestSha256Signer
+            _, fn = enc.make_interest(nm(list(base)), enc.InterestParam(), self.PARAMS, signer=DigestSha256Signer(),
+                                      need_final_name=True)
+            self.finals[key] = [bytes(c) for c in fn]
+        return self.finals[key]
+
+    def uri(self, comps):
+        comps = list(comps)
+        if comps and comps[-1] == 'P':
+            return enc.Name.to_str(self.final_name(comps[:-1]))
+        return nm(comps)
+
     def data_wire(self, d):
         key = (tuple(d['name']), d['id'])
         if key not in self.wires:
             # FreshnessPeriod present for even ids only: matching does not depend on it (nor on the Interest's MustBeFresh)
             mi = enc.MetaInfo(freshness_period=1000) if d['id'] % 2 == 0 else enc.MetaInfo()
-            self.wires[key] = bytes(enc.make_data(nm(d['name']), mi, b'D%d' % d['id']))
+            self.wires[key] = bytes(enc.make_data(self.uri(d['name']), mi, b'D%d' % d['id']))
         return self.wires[key]
 
-    def int_name(self, t):
+    def int_name(self, t, final=False):
+        if t['name'] and t['name'][-1] == 'P':
+            return list(self.final_name(t['name'][:-1])) if final else enc.Name.from_str(nm(t['name'][:-1]))
         name = enc.Name.from_str(nm(t['name']))
         if t['dig']:
             # the packet with this id under the same name
@@ -103,7 +126,7 @@ class PitRun:
         waits for the verdict the schedule gives"""
         # (a validator may run later than the delivery - legacy deferred await - so any packet delivered so far counts)
         try:
-            cands = [d for d in self.seen_data if nm(d['name']) == enc.Name.to_str(args[0])]
+            cands = [d for d in self.seen_data if self.uri(d['name']) == enc.Name.to_str(args[0])]
             if not cands:
                 self.bg.append('validator-got-wrong-name')
             elif len(args) >= 3 and bytes(args[2]['raw_packet']) not in [self.data_wire(d) for d in cands]:
@@ -180,7 +203,7 @@ class PitRun:
 
     def data_wire_by_id(self, did, name):
         for (n, i), w in self.wires.items():
-            if i == did and enc.Name.to_str(name) == nm(n):
+            if i == did and enc.Name.to_str(name) == self.uri(n):
                 return w
         return None
 
@@ -218,7 +241,12 @@ class PitRun:
                     kw['lifetime'] = None
                 else:
                     del kw['lifetime']
-            if e % 2 == 0:
+            parameterised = bool(t['name']) and t['name'][-1] == 'P'
+            if parameterised:
+                from ndn.security.signer import DigestSha256Signer
+                kw['app_param'] = self.PARAMS
+                kw['signer'] = DigestSha256Signer()
+            if e % 2 == 0 and not parameterised:
                 # every second Interest is expressed through ONE InterestParam object that the caller keeps and
                 # overwrites for the next Interest (the parameters of a pending Interest must not follow it)
                 if self.shared_param is None:
@@ -262,7 +290,7 @@ class PitRun:
             else:
                 try:
                     n2, p2, _, _ = enc.parse_interest(sent[0])
-                    if enc.Name.to_str(n2) != enc.Name.to_str(name) or bool(p2.can_be_prefix) != bool(t['cbp']) \
+                    if enc.Name.to_str(n2) != enc.Name.to_str(self.int_name(t, final=True)) or bool(p2.can_be_prefix) != bool(t['cbp']) \
                             or p2.lifetime != (None if 'lifetime' in kw and kw['lifetime'] is None else t['life'] * TICK_MS):
                         self.bg.append('express-wrong-interest')
                 except Exception as ex:  # noqa
@@ -275,8 +303,12 @@ class PitRun:
                 self.bg.append('receive:' + type(ex).__name__)
         elif a == 'RecvNack':
             t = ev['t']
-            iw = bytes(enc.make_interest(self.int_name(t), enc.InterestParam(can_be_prefix=bool(t['cbp']),
-                                                                              lifetime=t['life'] * TICK_MS, nonce=0x01020304)))
+            ipar = enc.InterestParam(can_be_prefix=bool(t['cbp']), lifetime=t['life'] * TICK_MS, nonce=0x01020304)
+            if t['name'] and t['name'][-1] == 'P':
+                from ndn.security.signer import DigestSha256Signer
+                iw = bytes(enc.make_interest(self.int_name(t), ipar, self.PARAMS, signer=DigestSha256Signer()))
+            else:
+                iw = bytes(enc.make_interest(self.int_name(t), ipar))
             reason = REASONS[ev['r']]
             # reason code 0 in a plain LP envelope is sent as a Nack header *without* NackReason (NDNLPv2: absent = 0)
             w = lp_wrap(iw, nack_reason=('absent' if (reason == 0 and ev['env'] == 'lp') else reason),
